@@ -145,7 +145,8 @@ MaxDepth == 12   \* call depth fuel
 MaxIter  == 6
 
 RECURSIVE Eval(_,_,_,_), EvalList(_,_,_,_,_), Apply(_,_,_,_), ExecSeq(_,_,_,_,_), ExecS(_,_,_,_),
-          ForLoop(_,_,_,_,_), ForInLoop(_,_,_,_,_,_), BindAll(_,_,_,_,_), DestrAll(_,_,_,_,_,_), ConstAll(_,_,_,_,_)
+          ForLoop(_,_,_,_,_), ForInLoop(_,_,_,_,_,_), BindAll(_,_,_,_,_), DestrAll(_,_,_,_,_,_), ConstAll(_,_,_,_,_),
+          SeqApply(_,_,_,_,_,_)
 
 ReadVar(b, st) == IF b.k = "g" THEN (IF b.n \in DOMAIN st.globals THEN st.globals[b.n] ELSE VUndef) ELSE st.store[b.a]
 WriteVar(b, v, st) == IF b.k = "g" THEN [st EXCEPT !.globals = FunUpd(@, b.n, v)] ELSE [st EXCEPT !.store[b.a] = v]
@@ -235,6 +236,11 @@ Apply(f, args, st, d) ==
     \* a Go function of the host that calls its first argument with the remaining ones through an
     \* Invoker (pooled / not pooled): by C14 this is the call itself
     (IF Len(args) >= 1 THEN Apply(args[1], Tail(args), st, d + 1) ELSE ErrR(VErr("WrongNumberOfArgumentsError", ""), st))
+  ELSE IF f.t = "bi" /\ f.n \in {"cbseq", "cbseq2"} THEN
+    \* host function: one Invoker (acquired once) calls the function once per argument list and collects
+    \* the results, a thrown error being collected as a value
+    (IF Len(args) = 2 /\ args[2].t = "arr" THEN SeqApply(args[1], args[2].v, 1, st, d, <<>>)
+     ELSE ErrR(VErr("WrongNumberOfArgumentsError", ""), st))
   ELSE IF f.t = "bi" THEN
     CASE f.n = "int" /\ Len(args) = 1 /\ args[1].t = "str" /\ args[1].v \in DOMAIN StrToInt -> OkR(VInt(StrToInt[args[1].v]), st)
       [] f.n = "int" /\ Len(args) = 1 /\ args[1].t = "int" -> OkR(args[1], st)
@@ -259,6 +265,10 @@ Apply(f, args, st, d) ==
          IN CASE r.o[1] = "ret" -> OkR(r.o[2], r.st)
               [] r.o[1] = "thr" -> ErrR(r.o[2], r.st)
               [] OTHER -> OkR(VUndef, r.st)
+
+SeqApply(f, lists, i, st, d, acc) ==
+  IF i > Len(lists) THEN OkR(VArr(acc), st)
+  ELSE LET r == Apply(f, lists[i].v, st, d + 1) IN SeqApply(f, lists, i + 1, r.st, d, Append(acc, r.v))
 
 \* ---- statements.  result [o, env, st]
 SR(o, env, st) == [o |-> o, env |-> env, st |-> st]
